@@ -27,7 +27,8 @@ Reg == [c \in Clients |->
 
 Users  == {"u1", "u2"}
 \* abstract URI names; "evil" is registered for nobody, "ucw" etc. belong to one client each
-URIs   == {"ucw", "ucw2", "ucx", "ucp", "ucj", "ucn", "evil"}
+\* "ucnEvil": another host with the SAME path as ucn (cn's loopback redirect URI)
+URIs   == {"ucw", "ucw2", "ucx", "ucp", "ucj", "ucn", "evil", "ucnEvil"}
 ScopeNames == {"openid", "profile", "email", "offline_access"}
 
 IsConfidential(c) == Reg[c].auth # "none"
